@@ -485,8 +485,9 @@ def pcadv_rule(ctx: Ctx, imap: dict) -> None:
                and isinstance(e.node.op, ast.Add) and ast.unparse(e.node.target) == "state.program_counter"]
         ok = len(beh_i) == 1 and len(adv) == 1 and adv[0] > beh_i[0]
         if ok:
-            v = ast.unparse(p.events[adv[0]].node.value)
-            ok = v in ("result_pr.instruction.length", "result_pr.instruction_length")
+            from ..pathsym import sym_events
+            v = ast.unparse(sym_events(p, keep={"result_pr"})[adv[0]].node.value)
+            ok = v in ("result_pr.instruction.length", "result_pr.instruction_length", "state.instruction_memory.read_instruction(state.program_counter).length")
         other = [e for e in p.events if e.kind == "stmt" and isinstance(e.node, ast.Assign)
                  and any(ast.unparse(t) == "state.program_counter" for t in e.node.targets)]
         ok = ok and not other
@@ -515,48 +516,98 @@ def ecall_rule(ctx: Ctx) -> None:
         raise AnalysisError("ECALL help table not recognised")
     ec = m.cls("ECALL")
     f = m.method(ec, "process_ecall", own=True)
-    mt = next((n for n in walk_no_nested(f.node) if isinstance(n, ast.Match)), None)
-    if mt is None:
-        raise AnalysisError("anchor vanished: match statement in ECALL.process_ecall")
-    subj = ast.unparse(mt.subject)
-    # subject is a7, argument is a0
-    binds = {n.targets[0].id: ast.unparse(n.value) for n in f.node.body if isinstance(n, ast.Assign) and isinstance(n.targets[0], ast.Name)}
-    r.check(binds.get(subj, "").replace(" ", "") == "int(architectural_state.register_file.registers[17])", "process_ecall|a7", f.loc(),
-            f"service code is read from `{binds.get(subj)}`, documented: register a7 (x17)")
-    r.check(any(v.replace(" ", "") == "int(architectural_state.register_file.registers[10])" for v in binds.values()), "process_ecall|a0", f.loc(),
-            "argument is not read from register a0 (x10)")
-    codes = {}
-    default_raises = False
-    for c in mt.cases:
-        pat = c.pattern
-        pats = pat.patterns if isinstance(pat, ast.MatchOr) else [pat]
-        for p1 in pats:
-            if isinstance(p1, ast.MatchValue):
-                k = const_int(p1.value)
-                codes[k] = c
-            elif isinstance(p1, ast.MatchAs) and p1.pattern is None:
-                default_raises = any(isinstance(n, ast.Raise) for n in c.body)
-    r.check(set(codes) == doc, "process_ecall|codes", f.loc(mt),
-            f"implemented service codes {sorted(codes)} != documented table {sorted(doc)}")
-    r.check(default_raises, "process_ecall|default", f.loc(mt), "an unknown service code does not raise")
+    from ..paths import function_paths
+    from ..pathsym import sym_events
+    A7 = "int(architectural_state.register_file.registers[17])"
+    A0 = "int(architectural_state.register_file.registers[10])"
+
+    def code_test(e: ast.AST):
+        """(subject text, {codes}) for `S == K`, `K == S`, `S in (K, ..)` and disjunctions of those over one subject."""
+        if isinstance(e, ast.BoolOp) and isinstance(e.op, ast.Or):
+            parts = [code_test(v) for v in e.values]
+            if all(x is not None for x in parts) and len({x[0] for x in parts}) == 1:
+                return parts[0][0], set().union(*[x[1] for x in parts])
+            return None
+        if isinstance(e, ast.Compare) and len(e.ops) == 1:
+            a, b = e.left, e.comparators[0]
+            if isinstance(e.ops[0], ast.Eq):
+                for x, y in ((a, b), (b, a)):
+                    k = const_int(y)
+                    if k is not None and const_int(x) is None:
+                        return ast.unparse(x).replace(" ", ""), {k}
+            if isinstance(e.ops[0], ast.In) and isinstance(b, (ast.Tuple, ast.List, ast.Set)) and all(const_int(x) is not None for x in b.elts):
+                return ast.unparse(a).replace(" ", ""), {const_int(x) for x in b.elts}
+        return None
+
+    arms: dict = {}  # code -> [(terminator, substituted value, raw value, node)]
+    default: list = []
+    subjects: set = set()
+    n_paths = 0
+    for p in function_paths(f.node):
+        n_paths += 1
+        evs = sym_events(p)
+        pos = None
+        for se in evs:
+            if se.event.kind != "test":
+                continue
+            ct = code_test(se.node)
+            if ct is None:
+                continue
+            subjects.add(ct[0])
+            if se.event.pol:
+                pos = set(ct[1]) if pos is None else pos & ct[1]
+        last = evs[-1] if evs else None
+        val = sub = None
+        if p.term == "return" and last is not None and isinstance(last.node, ast.Return):
+            sub, val = last.node.value, getattr(p.term_node, "value", None)
+        ent = (p.term, sub, val, p.term_node)
+        if pos is None:
+            default.append(ent)
+        else:
+            for k in pos:
+                arms.setdefault(k, []).append(ent)
+    if not arms:
+        raise AnalysisError("anchor vanished: no service-code dispatch found in ECALL.process_ecall")
+    r.check(subjects == {A7.replace(" ", "")}, "process_ecall|a7", f.loc(),
+            f"service code is read from `{sorted(subjects)}`, documented: register a7 (x17)")
+    r.check(set(arms) == doc, "process_ecall|codes", f.loc(),
+            f"implemented service codes {sorted(arms)} != documented table {sorted(doc)}")
+    r.check(bool(default) and all(t == "raise" for t, *_ in default), "process_ecall|default", f.loc(), "an unknown service code does not raise")
     exits = {10, 93}
-    for k, c in sorted(codes.items()):
-        rets = [n for st in c.body for n in ast.walk(st) if isinstance(n, ast.Return)]
-        kinds = {_kind(x.value, f) for x in rets}
+    for k, ents in sorted(arms.items()):
+        kinds = set()
+        for t, sub, val, node in ents:
+            if t != "return":
+                kinds.add(t)
+                continue
+            kd = _kind(sub, f)
+            if kd == "unknown":
+                kd = _kind(val, f)
+            kinds.add(kd)
         want = "int" if k in exits else "str"
-        r.check(kinds == {want}, f"process_ecall|code {k}", f.loc(c.body[0]),
+        r.check(kinds == {want}, f"process_ecall|code {k}", f.loc(ents[0][3]) if ents[0][3] is not None else f.loc(),
                 f"ecall {k} returns {sorted(kinds)}; {'exit codes must be ints' if want == 'int' else 'printing services must return text'}")
-    for k in exits & set(codes):
-        rets = [n for st in codes[k].body for n in ast.walk(st) if isinstance(n, ast.Return)]
-        want = "0" if k == 10 else "arg"
-        r.check([ast.unparse(x.value) for x in rets] == [want], f"process_ecall|exit {k}", f.loc(codes[k].body[0]),
-                f"ecall {k} must exit with status `{want}`")
-    # routing in behavior()
+    for k in exits & set(arms):
+        want = "0" if k == 10 else A0
+        got = sorted({ast.unparse(sub).replace(" ", "") if sub is not None else t for t, sub, val, node in arms[k]})
+        r.check(got == [want.replace(" ", "")], f"process_ecall|exit {k}", f.loc(arms[k][0][3]) if arms[k][0][3] is not None else f.loc(),
+                f"ecall {k} must exit with status `{'0' if k == 10 else 'a0 (x10)'}`; found {got}")
+    r.inst("ECALL.process_ecall", {"paths": n_paths, "codes": sorted(arms)})
+    # routing in behavior(): int -> exit_code, str -> appended to output
     beh = m.method(ec, "behavior", own=True)
-    txt = " ".join(ast.unparse(beh.node).split())
-    ok = "if type(result) is int: architectural_state.exit_code = result" in txt and \
-        "elif type(result) is str: architectural_state.output += result" in txt
-    r.check(ok, "ECALL.behavior|routing", beh.loc(), "ECALL.behavior does not route int -> exit_code and str -> output")
+    from ..parsershape import normal_flow
+    fl = normal_flow(m, beh)
+    R = "P0.process_ecall(architectural_state=P1)"
+    stores = {(fl.canon(e.expr), fl.canon_cond(e.cond)) for e in fl.effects if e.kind == "store"}
+    want_stores = {(f"P1.exit_code := {R}", f"isinstance({R}, int)"), (f"P1.output := Add({R}, P1.output)", f"isinstance({R}, str)")}
+    r.check(stores == want_stores, "ECALL.behavior|routing", beh.loc(), "ECALL.behavior does not route int -> exit_code and str -> output: "
+            + "; ".join(f"`{a}` when `{b}`" for a, b in sorted(stores ^ want_stores))[:300])
+    raw = next((n for n in ast.walk(beh.__dict__.get("raw_node", beh.node)) if isinstance(n, (ast.AugAssign, ast.Assign))
+                and "output" in ast.unparse(n.targets[0] if isinstance(n, ast.Assign) else n.target)), None)
+    if raw is not None and isinstance(raw, ast.Assign):
+        v = raw.value
+        ok = isinstance(v, ast.BinOp) and isinstance(v.op, ast.Add) and ast.unparse(v.left).endswith(".output")
+        r.check(ok, "ECALL.behavior|append", beh.loc(raw), f"printed text must be appended to the output: `{ast.unparse(raw)}`")
     r.floor(12)
 
 
